@@ -17,18 +17,18 @@ const (
 
 // policy: handler -> allowed roles (empty = permissionless)
 var c12Policy = map[string][]string{
-	"ophost.RecordBatch":             {},
-	"ophost.CreateBridge":            {},
-	"ophost.InitiateTokenDeposit":    {},
-	"ophost.FinalizeTokenWithdrawal": {},
-	"ophost.ProposeOutput":           {"proposer"},
-	"ophost.DeleteOutput":            {"authority", "proposer", "challenger"},
-	"ophost.UpdateProposer":          {"authority", "proposer"},
-	"ophost.UpdateBatchInfo":         {"authority", "proposer"},
-	"ophost.UpdateMetadata":          {"authority", "proposer"},
-	"ophost.UpdateOracleConfig":      {"authority", "proposer"},
-	"ophost.UpdateChallenger":        {"authority", "challenger"},
-	"ophost.UpdateParams":            {"authority"},
+	"ophost.RecordBatch":              {},
+	"ophost.CreateBridge":             {},
+	"ophost.InitiateTokenDeposit":     {},
+	"ophost.FinalizeTokenWithdrawal":  {},
+	"ophost.ProposeOutput":            {"proposer"},
+	"ophost.DeleteOutput":             {"authority", "proposer", "challenger"},
+	"ophost.UpdateProposer":           {"authority", "proposer"},
+	"ophost.UpdateBatchInfo":          {"authority", "proposer"},
+	"ophost.UpdateMetadata":           {"authority", "proposer"},
+	"ophost.UpdateOracleConfig":       {"authority", "proposer"},
+	"ophost.UpdateChallenger":         {"authority", "challenger"},
+	"ophost.UpdateParams":             {"authority"},
 	"opchild.InitiateTokenWithdrawal": {},
 	"opchild.AddValidator":            {"authority"},
 	"opchild.RemoveValidator":         {"authority"},
@@ -442,9 +442,11 @@ func propC12(c *Ctx) {
 		// writers table
 		eff := c.W.BuildEffects()
 		o2 := c.Ob("C12.R6", "BridgeInfo writers = {SetBridgeInfo handler, InitGenesis}")
-		allowedW := setOf("(opchild/keeper.MsgServer).SetBridgeInfo", "(opchild/keeper.Keeper).InitGenesis")
+		allowedW := setOf("(opchild/keeper.MsgServer).SetBridgeInfo", "(opchild.AppModule).InitGenesis")
 		seen := map[string]bool{}
-		for _, s := range eff.Where(func(s *Site) bool { return s.Kind == SColl && s.Field == "BridgeInfo" && s.IsCollWrite() && strings.HasPrefix(s.Owner, "opchild/") }) {
+		for _, s := range eff.Where(func(s *Site) bool {
+			return s.Kind == SColl && s.Field == "BridgeInfo" && s.IsCollWrite() && strings.HasPrefix(s.Owner, "opchild/")
+		}) {
 			o2.Sites++
 			for _, r := range eff.OwnerNames(s) {
 				seen[r] = true
